@@ -114,8 +114,21 @@ class C08(Profile):
         from .monitors.c08 import FrameMonitor  # noqa: PLC0415
         return [FrameMonitor]
 
-    clients = [(cl.Builder, 4), (cl.Composer, 3), (cl.Rewriter, 1.2),
-               (cl.Tuner, 1), (cl.Bystander, 2.5), (fl.Rejector, 1.5)]
+    expected_probes = ["failed_call_checked"]
+
+    @property
+    def clients(self):
+        from . import consumers as co  # noqa: PLC0415
+        return [(cl.Builder, 4), (cl.Composer, 3), (cl.Rewriter, 1.2),
+                (cl.Tuner, 1), (cl.Bystander, 2.5), (fl.Rejector, 1.5),
+                (co.SamplerUser, 0.5), (co.AnalyzerUser, 0.3)]
+
+    def swarm(self, rng):
+        cfg = super().swarm(rng)
+        cfg["pool_states"] = True
+        cfg["tomo_bystander"] = rng.random() < 0.7
+        cfg["max_photons"] = 2
+        return cfg
 
 
 class C02(Profile):
